@@ -2,6 +2,7 @@ CONSTANTS
   MaxOps = 4
   MaxReq = 2
   TwoStep = TRUE
+  Exotic = FALSE
   Hold = FALSE
   Free = FALSE
 SPECIFICATION Spec
